@@ -24,3 +24,26 @@ Theorem C19_sequential_entry_uses_zero :
     id = 0 \/ (id <> e_last_assigned e + 1 /\ id = e_last_assigned e').
 Proof. exact sequential_entry_uses_zero. Qed.
 Print Assumptions C19_sequential_entry_uses_zero.
+
+(* Zero forms of the ids on terms, from every state: a name id is written explicitly only when it
+   is not "previous + 1"; a prefix id only when it differs from the previous one (or none was used). *)
+Theorem C19_name_id_zero_form :
+  forall (k : str) (e e' : slenc) (id : N),
+    encode_name_term_index str_eqb k e = Some (e', id) ->
+    (id = 0 /\ e_last_reused e' = e_last_reused e + 1) \/ (id = e_last_reused e' /\ id <> e_last_reused e + 1).
+Proof. exact name_id_zero_form. Qed.
+Print Assumptions C19_name_id_zero_form.
+
+Theorem C19_prefix_id_zero_form :
+  forall (k : str) (e e' : slenc) (id : N),
+    encode_prefix_term_index str_eqb (is_nil k) k e = Some (e', id) ->
+    id = 0 \/ (id = e_last_reused e' /\ (e_last_reused e = 0 \/ id <> e_last_reused e)).
+Proof. exact prefix_id_zero_form. Qed.
+Print Assumptions C19_prefix_id_zero_form.
+
+(* Never more than the naive encoding: an IRI costs at most one prefix and one name entry row. *)
+Theorem C19_iri_at_most_two_entry_rows :
+  forall (iri : str) (t t' : tenc) (rows : list row) (p n : N),
+    encode_iri iri t = Ok (t', rows, p, n) -> (length rows <= 2)%nat.
+Proof. exact iri_rows_bounded. Qed.
+Print Assumptions C19_iri_at_most_two_entry_rows.
